@@ -36,6 +36,7 @@ type impl struct {
 	t      *trie.Trie
 	limit  uint16
 	snaps  []*trie.Trie // retained trie objects (op snap): must keep reading their own content
+	lastRoot string     // last root hash the implementation reported (for updroot / noderoot)
 }
 
 func newImpl() *impl {
@@ -68,8 +69,32 @@ func (m *impl) reopen(root common.Hash) string {
 	return hx.Hex(root[:])
 }
 
+func xorDigest(keys [][]byte) string {
+	acc := []byte{}
+	for _, k := range keys {
+		for len(acc) < len(k) {
+			acc = append(acc, 0)
+		}
+		for i := range k {
+			acc[i] ^= k[i]
+		}
+	}
+	return strconv.Itoa(len(keys)) + ":" + hx.Hex(acc)
+}
+
 // exec runs one op line against the implementation and returns the protocol answer.
 func (m *impl) exec(line string) string {
+	res := m.exec1(line)
+	if len(res) == 64 && !strings.ContainsAny(res, " =:") {
+		w0 := strings.Fields(line)[0]
+		if w0 == "hash" || w0 == "commit" || w0 == "reopen" || w0 == "dbcommit" || w0 == "snap" || w0 == "commitref" {
+			m.lastRoot = res
+		}
+	}
+	return res
+}
+
+func (m *impl) exec1(line string) string {
 	w := strings.Fields(line)
 	if len(w) == 0 {
 		return "bad-op"
@@ -161,6 +186,44 @@ func (m *impl) exec(line string) string {
 		return "n=" + strconv.Itoa(n) + sb.String()
 	case w[0] == "shape" && len(w) == 1:
 		return shapeOf(m.t)
+	case w[0] == "dbstate" && len(w) == 1:
+		// the two layers of the NodeDatabase: hashes in the memory cache, keys on disk
+		var mem [][]byte
+		for _, h := range m.triedb.Nodes() {
+			mem = append(mem, append([]byte{}, h[:]...))
+		}
+		return "mem=" + xorDigest(mem) + " disk=" + xorDigest(m.disk.Keys())
+	case w[0] == "node" && len(w) == 2:
+		hb, ok := arg(1)
+		if !ok {
+			return "bad-op"
+		}
+		b, err := m.triedb.Node(common.BytesToHash(hb))
+		if err != nil || b == nil || len(hb) != 32 {
+			return "absent"
+		}
+		return "blob=" + hx.Hex(b)
+	case w[0] == "blob" && len(w) == 2:
+		x, ok := arg(1)
+		if !ok {
+			return "bad-op"
+		}
+		h := common.BytesToHash(keccak(x))
+		m.triedb.InsertBlob(h, x)
+		return hx.Hex(h[:])
+	case w[0] == "commitref" && len(w) == 1:
+		// Trie.Commit with a leaf callback, as the account layer uses it: a 32-byte leaf value is
+		// taken for the root of another trie and referenced from the node that holds the leaf
+		h, err := m.t.Commit(func(leaf []byte, parent common.Hash) error {
+			if len(leaf) == 32 {
+				m.triedb.Reference(common.BytesToHash(leaf), parent)
+			}
+			return nil
+		})
+		if err != nil {
+			return errClass(err)
+		}
+		return hx.Hex(h[:])
 	case w[0] == "fork" && len(w) == 1:
 		// retain a VALUE COPY of the trie object: it shares every node with the working trie, so it
 		// keeps its content only if insert/delete/tryGet/hash never modify a reachable node in place
@@ -273,6 +336,16 @@ func main() {
 	thorough := a["tier"] == "thorough"
 	m := newImpl()
 	do := func(line string) string {
+		// ops that refer to the last reported root are made self-contained before they are recorded
+		lr := m.lastRoot
+		if lr == "" {
+			lr = strings.Repeat("11", 32)
+		}
+		if strings.HasPrefix(line, "updroot ") {
+			line = "upd " + strings.TrimPrefix(line, "updroot ") + " " + lr
+		} else if line == "noderoot" {
+			line = "node " + lr
+		}
 		res := hx.Guard(func() string { return m.exec(line) })
 		out.emit(line, res)
 		return res
@@ -345,6 +418,7 @@ func main() {
 				}
 			}
 			do("shape")
+			do("dbstate")
 			dist["exhaustive-seqs"]++
 		}
 		if depth == 0 {
@@ -397,6 +471,8 @@ func main() {
 		for _, k := range g.pool {
 			do("get " + hx.Hex(k))
 		}
+		do("dbstate")
+		do("noderoot")
 		for i := 0; i < g.nsnaps; i++ {
 			do("shash " + strconv.Itoa(i))
 			do("sshape " + strconv.Itoa(i))
